@@ -24,6 +24,7 @@ structure VInfo where
   field : Option String
   sb : Nat
   eb : Nat
+  sups : List String := []   -- hidden supertype nodes between this node and its visible parent
   deriving Repr, Inhabited, DecidableEq
 
 inductive VT where
@@ -42,6 +43,7 @@ inductive NodeTest where
   | missingAny
   | missingKind (name : String) (named : Bool)
   | error
+  | super (sup : String) (sub : Option (String × Bool))   -- `(sup)` / `(sup/sub)`, `(sup/"lit")`
   deriving Repr, Inhabited, DecidableEq
 
 inductive Quant where | one | opt | star | plus
@@ -80,10 +82,14 @@ def testNode : NodeTest → VInfo → Bool
   | .missingAny, i => i.missing
   | .missingKind name named, i => i.missing && i.kind == name && i.named == named
   | .error, i => i.error
+  | .super sup none, i => !i.error && i.sups.contains sup
+  | .super sup (some (k, named)), i => i.kind == k && i.named == named && i.sups.contains sup
 
-/-- `!field`: no child carries that field. -/
+/-- `!field`: no child carries that field (`ts_node_child_by_field_id`).  An ERROR node has no
+production, so that lookup finds nothing there even when the cursor reports field names on its
+children: for ERROR nodes a negated field always holds (the implementation decides). -/
 def negOk (neg : List String) (n : VT) : Bool :=
-  neg.all fun f => n.kids.all fun k => k.info.field != some f
+  n.info.error || neg.all fun f => n.kids.all fun k => k.info.field != some f
 
 def fieldOk (f : Option String) (i : VInfo) : Bool :=
   match f with
